@@ -12,3 +12,10 @@ UNITS = [
          bound_note="1 bound label, 2 sections (buffers <= 24 bytes), <= 1 (quick) / 2 (thorough) cross-section references; section offsets, label offset, rel, formats symbolic (full 64-bit range)",
          note="modular: CodeWriterUtils::write_offset replaced by its contract (unit c17.write_offset)"),
 ]
+
+UNITS += [
+    Unit(name="c03.new_fixup", props=["C03", "C15"], tu=CH, roots=["asmjit::CodeHolder::new_fixup"], stops=["asmjit::Arena::_alloc_oneshot"],
+         target="CodeHolder_new_fixup", contracts="contracts/c03_newfixup.h", replace=["Arena__alloc_oneshot"], unwind=12,
+         note="loop-free code; complete for the stated shapes of the pool/arena (pool empty or one record at its head; <= 64 bytes left in the current arena block)",
+         trusted=["Arena::_alloc_oneshot replaced by an ASSUMED contract (NULL or a fresh record); its own contract is unit c18.arena.alloc_oneshot"]),
+]
